@@ -115,7 +115,10 @@ public:
 		for(size_t i = 0; i < _length; i++) {
 			if(!(_pointer[i] >= '0' && _pointer[i] <= '9'))
 				return null_opt;
-			value = value * 10 + (_pointer[i] - '0');
+			// Numbers that do not fit into T are rejected (and signed overflow is undefined).
+			if(__builtin_mul_overflow(value, T{10}, &value)
+					|| __builtin_add_overflow(value, static_cast<T>(_pointer[i] - '0'), &value))
+				return null_opt;
 		}
 		return value;
 	}
